@@ -13,6 +13,7 @@ import Lcapy.Model.Fourier
 import Lcapy.Generated.FourierTable
 import Lcapy.Proofs.Fourier
 import Lcapy.Proofs.FourierAnchors
+import Lcapy.Proofs.LaplaceIntegral
 namespace Lcapy.C12
 open Lcapy.Fourier
 
@@ -91,6 +92,28 @@ theorem model_forward_refines (pi : Rat) (t : Term) (e : GEntry) (ha : t.a ≠ 0
     (hpair : entryE pi false e.terms = (ftKind pi t.k).map fun p => ⟨p.q, 0, 0, p.k, p.s, 0⟩) :
     Model.modelTerm pi false 0 t = some (ftTerm pi t) :=
   model_forward_refines_aux pi t e ha similarity_code_is_theorem.1 similarity_code_is_theorem.2.1 hk hk' h1 h2 h3 h4 h5 hl hpair
+
+/-- every generated row is, term by term, the row of its atom in the spec's table (exact order; decided on the regenerated table) -/
+theorem ft_table_rows_exact : ∀ e ∈ Gen.table, entryForwardExact e = true := by decide
+
+/-- `model_forward_refines` with the table hypothesis DISCHARGED: for an atom handled by a generated table branch, the model of the
+    code computes the spec transform `ftTerm` (defined from `ftKind`) of `c·e^{j2πθt}·K(at+b)` -/
+theorem model_forward_refines_table (pi : Rat) (t : Term) (e : GEntry) (ha : t.a ≠ 0)
+    (hk : ∀ al, t.k ≠ .cpole 1 al) (hk' : ∀ al, t.k ≠ .expu 0 al) (h1 : t.k ≠ .one) (h2 : t.k ≠ .ramp) (h3 : t.k ≠ .inv1)
+    (h4 : t.k ≠ .inv2) (h5 : ∀ al, t.k ≠ .trap al) (hl : Model.lookup t.k 0 = some e) :
+    Model.modelTerm pi false 0 t = some (ftTerm pi t) := by
+  obtain ⟨hmem, hkind⟩ := lookup_mem t.k 0 e hl
+  have hrow := table_row_is_ftKind pi e (ft_table_rows_exact e hmem)
+  rw [hkind] at hrow
+  exact model_forward_refines pi t e ha hk hk' h1 h2 h3 h4 h5 hl hrow
+
+-- non-vacuity of model_forward_refines_table: a scaled, shifted, modulated rect with complex coefficient, every premise proved
+example : Model.modelTerm (22 / 7) false 0 ⟨⟨2, 1⟩, 1 / 4, 3, .rect, 2, -1⟩ = some (ftTerm (22 / 7) ⟨⟨2, 1⟩, 1 / 4, 3, .rect, 2, -1⟩) := by
+  cases h : Model.lookup Kind.rect 0 with
+  | none => exact absurd h (by decide)
+  | some e =>
+    exact model_forward_refines_table (22 / 7) ⟨⟨2, 1⟩, 1 / 4, 3, .rect, 2, -1⟩ e (by decide) (by intro al; simp) (by intro al; simp)
+      (by simp) (by simp) (by simp) (by simp) (by intro al; simp) h
 
 /-- … and for the trapezoid: with the exponent `p` that the source writes (`α^p·sincn(f)·sincn(αf)`, GENERATED), the code computes
     `α^p` times the spec transform of every scaled / shifted / modulated trapezoid; `p = 0` is the pair (Props/C12Trap.lean) -/
@@ -171,13 +194,27 @@ example : (22 / 7 : Rat) ≠ 0 ∧ (3 / 2 : Rat) ≠ 0 := by norm_num
 
 /-! ## Laplace transform on the jω axis -/
 
-/-- for a causal ExpPoly  Σ c·t^k e^{−αt}u(t)  with all poles in the open left half plane (Re α > 0: absolutely integrable),
-    the rational spectrum is the unilateral Laplace transform at s = j·2πf -/
-theorem fourier_is_laplace_on_jw (pi f : Rat) (x : List EPTerm) (_hstable : ∀ p ∈ x, 0 < p.al.re) :
-    ratValue pi f (ft pi (x.map EPTerm.toTerm)) = laplaceAt ⟨0, 2 * pi * f⟩ x :=
-  fourier_laplace_aux pi f x
+/-- FORMAL identity (term algebra; no analysis, no stability hypothesis): for a causal ExpPoly  Σ c·t^k e^{−αt}u(t)  the rational part of
+    the spec spectrum at f is C09's formal unilateral Laplace transform `Lcapy.Laplace.L` (Spec/Signal.lean) of the same signal at
+    s = j·2πf.  (`laplaceAt`, the formula the driver uses for the Laplace route, IS that `L`: `laplaceAt_is_L`.)  The code's guard of
+    the shortcut (`sexpr.fourier`: causal and stable, else through the time domain) is not modelled; it is exercised by the
+    `laplace-route` stream of the harness incl. poles ON the imaginary axis. -/
+theorem fourier_is_laplace_on_jw_formal (pi f : Rat) (x : List EPTerm) :
+    ratValue pi f (ft pi (x.map EPTerm.toTerm)) =
+      Lcapy.Laplace.L (fun _ => (1 : CQ)) (x.map EPTerm.toLaplace) ⟨0, 2 * pi * f⟩ := by
+  rw [← laplaceAt_is_L]; exact fourier_laplace_aux pi f x
 
-example : ∀ p ∈ [(⟨⟨2, 0⟩, 1, ⟨3, 4⟩⟩ : EPTerm)], 0 < p.al.re := by decide
+/-- ANALYTIC statement, where stability is USED: for `Re α > 0` (pole in the open left half plane: absolutely integrable) and every
+    order k the Fourier integral of `t^k e^{−αt}u(t)` exists and is the Laplace integral on the jω axis, `k!/(α + j2πf)^{k+1}`
+    — the pair `expu k α ⟷ k!·cpole (k+1) α` of the table -/
+theorem fourier_is_laplace_on_jw (k : ℕ) (al : ℂ) (f : ℝ) (hstable : 0 < al.re) :
+    ∫ t : ℝ in Set.Ioi (0 : ℝ), (t : ℂ) ^ k * Complex.exp (-al * t) * Complex.exp (-((2 * Real.pi * f : ℝ) * Complex.I * t))
+      = (k.factorial : ℂ) / ((2 * Real.pi * f : ℝ) * Complex.I + al) ^ (k + 1) := by
+  have h := Lcapy.Laplace.anchor_complex k (-al) ((2 * Real.pi * f : ℝ) * Complex.I) (by simpa using hstable)
+  rw [sub_neg_eq_add] at h
+  exact h
+
+example : 0 < ((3 : ℂ) + 4 * Complex.I).re := by simp
 
 /-! ## inverse ∘ forward -/
 
@@ -229,6 +266,13 @@ theorem pair_table_involutive_trap (pi al : Rat) :
     ftftPairs pi (.trap al) = [(1, .trap al, 1)] ∧ ftftPairs pi (.sincp al) = [(1, .sincp al, 1)] := pair_involutive_trap pi al
 
 /-! ## anchors: where an integral exists the formal pair is the integral -/
+
+/-- the rows of `ftKind` (the table that defines `ft`) to which the analytic anchors below refer.  NOTE: the class `E` has no
+    denotation map into functions ℝ → ℂ; "equals the defining integral" is carried, for these rows only, by the free-standing Mathlib
+    integrals `anchor_*` (and `fourier_is_laplace_on_jw` for every order k); all other rows are formal generalised-function pairs -/
+theorem anchored_rows (pi : Rat) (k : Nat) (al : CQ) :
+    ftKind pi .rect = [⟨1, .sinc, 1⟩] ∧ ftKind pi .tri = [⟨1, .sinc2, 1⟩] ∧ ftKind pi .gauss = [⟨1, .gauss, 1⟩] ∧
+    ftKind pi (.expu k al) = [⟨CQ.ofRat (fact k), .cpole (k + 1) al, 1⟩] := ⟨rfl, rfl, rfl, rfl⟩
 
 /-- ∫₀^∞ e^{−αt} e^{−j2πft} dt = 1/(α + j2πf)  for Re α > 0  (pair `expu 0 α ⟷ cpole 1 α`) -/
 theorem anchor_one_sided_exponential (al : ℂ) (f : ℝ) (h : 0 < al.re) :
